@@ -626,6 +626,11 @@ class Program:
         self._cg = None
         self._rcg = None
         self._impls_of = None
+        # helper functions that are not in the reference inventory are analysed as part of their callers (engine/inline.py)
+        self.inlined = []
+        if not os.environ.get("RPX_NO_INLINE"):
+            from . import inline
+            self.inlined = inline.expand(self, Fn)
 
     # --------------------------------------------------------------- lookup
     def key_for(self, crate, path, from_crate):
@@ -671,8 +676,8 @@ class Program:
 
     def children(self, f):
         """closures/coroutines lexically nested in f"""
-        pre = f.key + "::{closure#"
-        return [g for k, g in self.fns.items() if k.startswith(pre)]
+        pres = [f.key + "::{closure#"] + [f.crate + "::" + m + "::{closure#" for m in f.j.get("merged_from", [])]
+        return [g for k, g in self.fns.items() if any(k.startswith(pre) for pre in pres) and k != f.key]
 
     def top_parent(self, f):
         """enclosing non-closure function"""
